@@ -1250,7 +1250,196 @@ class TopologyWrites(Suite):
         return False
 
 
-SUITES = [History(), Collections(), Accessors(), Handles(), Adjacency(), TopologyWrites()]
+# ----------------------------------------------------------------------------- node handles KEPT while the tree is written
+# "for all interleavings of reads and attribute writes": a handle is obtained once (by any public route out of any window), the tree is written
+# through its own node handles afterwards, and only then is the kept handle read; or the tree is written while a window is being walked.
+KEPT_WINDOWS = ["tree", "get_paths", "get_branches", "get_segments", "branch.get_segments", "Path(t,idx)", "Branch(t,idx)", "node.branch()"]
+KEPT_ROUTES = ["for", "list()", "next(iter())", "[j]", "[j-k]", "node(j)", "[:]", "[::-1]", "reversed()", "unpacking"]
+KEPT_MODES = ["keep", "walk", "reread"]
+WCOLS = ["type", "x", "y", "z", "r"]
+
+
+def kept_window(t, case):
+    """the window of the case, and the rows of the tree it shows (None: the tree has no such window)"""
+    from swcgeom.core import Branch, Path
+
+    kind, f = case["window"], case["pick"]
+    pick = lambda xs: xs[int(f * len(xs))] if len(xs) else None
+    if kind == "tree":
+        return t, list(range(len(t)))
+    if kind in ("Path(t,idx)", "Branch(t,idx)"):
+        return (Path if kind[0] == "P" else Branch)(t, np.array(case["idx"], dtype=np.int32)), list(case["idx"])
+    if kind == "branch.get_segments":
+        b = pick(t.get_branches())
+        v = pick(b.get_segments()) if b is not None else None
+        return (None, None) if v is None else (v, [int(i) for i in np.asarray(b.idx)[np.asarray(v.idx)]])
+    if kind == "node.branch()":
+        v = t.node(int(f * len(t))).branch()
+    else:
+        v = pick(getattr(t, kind)())
+    return (None, None) if v is None else (v, [int(i) for i in np.asarray(v.idx)])
+
+
+def kept_handles(route, v, k):
+    """the node handles of window v in position order, produced one at a time by the given public route"""
+    if route == "for":
+        return iter(v)
+    if route == "list()":
+        return iter(list(v))
+    if route == "next(iter())":
+        it = iter(v)
+        return (next(it) for _ in range(k))
+    if route == "[j]":
+        return (v[j] for j in range(k))
+    if route == "[j-k]":
+        return (v[j - k] for j in range(k))
+    if route == "node(j)":
+        return (v.node(j) for j in range(k))
+    if route == "[:]":
+        return iter(v[:])
+    if route == "[::-1]":
+        return iter(v[::-1][::-1])
+    if route == "reversed()":
+        return iter(list(reversed(v))[::-1])
+    if route == "unpacking":
+        (*hs,) = v
+        return iter(hs)
+    raise ValueError(route)
+
+
+class KeptHandles(Suite):
+    """a node handle is a window, not a snapshot: whatever the route it was obtained by and whatever window it was obtained from, it reports
+    the tree's CURRENT attributes of its node after the tree was written through tree node handles, at every point of the interleaving"""
+    name = "c09.kept_handles"
+
+    def cases(self, rng, tier, widen):
+        out = []
+        big = tier == "thorough" or widen
+        k = 0
+        for _rep in range(3 if big else 1):
+            for wi, window in enumerate(KEPT_WINDOWS):
+                for ri, route in enumerate(KEPT_ROUTES):
+                    n = rng.choice([2, 3, 5, 8, 13] + ([40] if big else []))
+                    pids = gen.renumber_root0(rng, gen.parents_sorted(rng, n, gen.pick_shape(rng, k)))
+                    nn = len(pids)
+                    t = {"n": nn, "pids": pids, "types": [1] + [rng.choice([2, 3, 4]) for _ in range(nn - 1)],
+                         "xyz": [[float(rng.randint(-30, 30)) for _ in range(3)] for _ in range(nn)], "r": [float(rng.randint(1, 9)) for _ in range(nn)]}
+                    decorate(rng, t, k)
+                    mode = KEPT_MODES[(wi + ri + _rep) % 3]; k += 1
+                    # writes: (position in the window as a fraction / offset from the handle just read, column, value, tree handle spelling)
+                    writes = [[rng.random(), rng.choice([0, 1, 1, 2, -1]), rng.choice(WCOLS), rng.randint(100, 900), rng.choice(["t[i]", "t.node(i)", "t[i-n]"])]
+                              for _ in range(rng.randint(2, 6))]
+                    out.append({"class": f"{mode}/{route}/{window}" + ("/names" if t["names"] else ""), "tree": t, "window": window, "route": route,
+                                "mode": mode, "pick": rng.random(), "idx": [rng.randrange(nn) for _ in range(rng.randint(1, 5))], "writes": writes})
+        return out
+
+    def run(self, case):
+        tc = case["tree"]
+        t = build_tree(tc)
+        n = len(t)
+        v, rows = kept_window(t, case)
+        if v is None:
+            return {"skip": True}
+        k = len(rows)
+        ev = []
+
+        def read(p, h, how):
+            ev.append(["r", p, how, [int(getattr(h, c)) for c in COLS], [int(h[actual(tc, c)]) for c in COLS]])
+
+        def write(w, p):
+            row = rows[p % k]
+            h = {"t[i]": lambda: t[row], "t.node(i)": lambda: t.node(row), "t[i-n]": lambda: t[row - n]}[w[4]]()
+            setattr(h, w[2], w[3])
+            ev.append(["w", row, w[2], w[3]])
+
+        ws = case["writes"]
+        with warnings.catch_warnings():
+            warnings.simplefilter("ignore")
+            hs = kept_handles(case["route"], v, k)
+            if case["mode"] == "walk":
+                # the tree is written while the window is walked: each handle is read when it is reached
+                for p in range(k):
+                    h = next(hs)
+                    read(p, h, "reached")
+                    w = ws[p % len(ws)]
+                    write(w, p + w[1])
+            else:
+                kept = [next(hs) for _ in range(k)]
+                if case["mode"] == "reread":
+                    for p, h in enumerate(kept):
+                        read(p, h, "fresh")
+                for j, w in enumerate(ws):
+                    write(w, int(w[0] * k))
+                    if case["mode"] == "reread":
+                        p = int(ws[-1 - j][0] * k)
+                        read(p, kept[p], "kept")
+                for p, h in enumerate(kept):
+                    read(p, h, "kept")
+            extra = len(list(hs)) if case["route"] in ("for", "list()", "[:]", "[::-1]", "reversed()", "unpacking") else 0
+        return {"rows": rows, "events": ev, "extra": extra, "final": {c: [int(x) for x in column(t, c)] for c in COLS},
+                "window_final": {c: [int(x) for x in column(v, c, "method" if v is not t else "key")] for c in COLS}}
+
+    def oracle(self, case, res):
+        t = case["tree"]
+        what = f"a {case['window']} window of a tree with pids={t['pids']}, names={t.get('names')}; handles obtained by {case['route']}, mode {case['mode']}"
+        if "exc" in res:
+            return [("node-handle-raises", f"{what}: {res['exc']}: {res.get('msg')}")]
+        if res.get("skip"):
+            return []
+        try:
+            return self._judge(case, res, what)
+        except CaseTimeout:
+            raise
+        except Exception as e:  # noqa: BLE001 - a malformed result is a finding, not a crash
+            return [("node-read", f"{what}: malformed observation ({type(e).__name__}: {e})")]
+
+    def _judge(self, case, res, what):
+        t = case["tree"]
+        n, pids = t["n"], t["pids"]
+        rows = res["rows"]
+        if not rows or any(not isinstance(i, int) or not 0 <= i < n for i in rows):
+            return [("view-rows", f"{what}: it shows rows {rows} of a tree of {n} nodes")]
+        if case["window"] in ("Path(t,idx)", "Branch(t,idx)") and rows != case["idx"]:
+            return [("view-rows", f"{what}: it shows rows {rows}, asked for {case['idx']}")]
+        if case["window"] in ("get_paths", "get_branches", "get_segments", "branch.get_segments", "node.branch()") and any(pids[b] != a for a, b in zip(rows, rows[1:])):
+            return [("view-rows", f"{what}: its rows {rows} are not a chain of (parent, child) pairs")]
+        if res.get("extra"):
+            return [("view-iteration", f"{what}: {res['extra']} handles more than its {len(rows)} nodes")]
+        cur = {c: list(vv) for c, vv in tree_columns(t).items()}
+        for e in res["events"]:
+            if e[0] == "w":
+                cur[e[2]][e[1]] = e[3]
+                continue
+            _, p, how, attrs, items = e
+            row = rows[p]
+            want = [cur[c][row] for c in COLS]
+            for got, spelled in ((attrs, "handle.<column>"), (items, "handle[<column name>]")):
+                if got != want:
+                    key = "node-read" if how != "kept" else "stale-or-leaked-write"
+                    return [(key, f"{what}: the handle of position {p} (tree node {row}), read as {spelled} when {how} after the writes "
+                                  f"{[x[1:] for x in res['events'][:res['events'].index(e)] if x[0] == 'w']}, reports {dict(zip(COLS, got))}; "
+                                  f"the tree node has {dict(zip(COLS, want))}")]
+        for c in COLS:
+            if res["final"][c] != cur[c]:
+                return [("node-write", f"{what}: after the writes the tree's column {c} is {res['final'][c]}, expected {cur[c]}")]
+            if res["window_final"][c] != [cur[c][i] for i in rows]:
+                return [("view-read", f"{what}: after the writes the window's column {c} is {res['window_final'][c]}, the tree has {[cur[c][i] for i in rows]}")]
+        return []
+
+    def nontrivial(self, case, res):
+        # some kept handle is read after a write to ITS node
+        if res.get("skip") or "events" not in res:
+            return False
+        written = set()
+        for e in res["events"]:
+            if e[0] == "w":
+                written.add(e[1])
+            elif res["rows"][e[1]] in written:
+                return True
+        return False
+
+
+SUITES = [History(), Collections(), Accessors(), Handles(), Adjacency(), TopologyWrites(), KeptHandles()]
 TECHNIQUE = ("Lean 4 theorems about a heap model of owners, arrays and index-holding views (a view's read is the owner's current content at its indices after any "
              "history; a tree-node write lands in the owner and is seen by every view; copy / detach allocate fresh arrays, so for every later interleaving of "
              "writes neither side sees the other's; segment construction) + differential correspondence on random operation histories + np.shares_memory oracle")
